@@ -4716,7 +4716,7 @@ let client_RetryDelaySeconds =
 (** val renew_threshold : z **)
 
 let renew_threshold =
-  Zpos (XO (XI (XI (XI XH))))
+  Zpos (XO (XO (XI (XI (XI XH)))))
 
 (** val renew_subtract : z **)
 
